@@ -122,7 +122,14 @@ def run_config(cfg):
     model = gb.build_model()
     order, kinds, ins = extract(model, lsl)
     pos = {nm: i for i, nm in enumerate(order)}
-    iface = gs.LieselInterface(model)
+    model.auto_update = bool(cfg.get("auto_at_creation", True))
+    if cfg.get("iface") == "goose":
+        import warnings
+        with warnings.catch_warnings():
+            warnings.simplefilter("ignore")
+            iface = lsl.GooseModel(model)
+    else:
+        iface = gs.LieselInterface(model)
 
     def probe_fn(j):
         def fn(key, ms):
@@ -358,15 +365,17 @@ def gen_cfg(rnd, i, quick):
                          [["FAST_ADAPTATION", 4], ["SLOW_ADAPTATION", 4], ["POSTERIOR", 4]]])
     return {"n": rnd.randint(4, 8), "p": rnd.randint(1, 3), "data_seed": rnd.randrange(10 ** 6), "seed": rnd.randrange(10 ** 6),
             "chains": rnd.choice([1, 2, 3]), "tau_transient": rnd.random() < 0.5, "sigma_transient": rnd.random() < 0.5,
-            "blocks": out, "epochs": epochs}
+            "blocks": out, "epochs": epochs, "iface": ["liesel", "goose"][i % 2], "auto_at_creation": (i // 2) % 2 == 0}
 
 
 CORPUS_F = [
     {"n": 6, "p": 2, "data_seed": 1, "seed": 11, "chains": 2, "tau_transient": False, "sigma_transient": True,
+     "iface": "goose", "auto_at_creation": False,
      "blocks": [{"kind": "nuts", "params": ["beta", "mu0"]}, {"kind": "gibbs", "params": ["log_tau"]},
                 {"kind": "rw", "params": ["log_sigma"]}],
      "epochs": [["FAST_ADAPTATION", 4], ["POSTERIOR", 4]]},
     {"n": 5, "p": 1, "data_seed": 2, "seed": 12, "chains": 1, "tau_transient": True, "sigma_transient": False,
+     "iface": "liesel", "auto_at_creation": False,
      "blocks": [{"kind": "iwls", "params": ["beta"]}, {"kind": "mh", "params": ["free"]},
                 {"kind": "nuts", "params": ["log_sigma"], "max_treedepth": 1},
                 {"kind": "hmc", "params": ["mu0"]}, {"kind": "gibbs", "params": ["log_tau"]}],
@@ -400,6 +409,7 @@ def histogram(ctx, c):
         return
     ctx.hist("F.configs")
     ctx.hist("F.chains.%d" % c["cfg"]["chains"])
+    ctx.hist(f"F.interface.{c['cfg'].get('iface', 'liesel')}.auto_update_at_creation_{c['cfg'].get('auto_at_creation', True)}")
     for b in c["cfg"]["blocks"]:
         ctx.hist("F.kernel." + b["kind"])
     for ety, _ in c["cfg"]["epochs"]:
